@@ -10,6 +10,7 @@ from core import (SVal, TupleVal, LocalDict, FuncVal, ClassVal, ModuleVal, ExcVa
                   CheckerError, fresh_name, fresh_val, I, B, R)
 from engine_expr import is_exc
 from state import cls_of, ALIVE
+from contracts import clause
 
 MAX_INLINE_DEPTH = 12
 
@@ -300,7 +301,12 @@ class CallMixin:
         short = c.qual.split(':')[-1]
         for g in c.ghost:
             if g not in env:
-                if g in st.env:
+                if isinstance(c.ghost[g], tuple):
+                    gf = self.Frame(fr.module, fr.qual, fr.cls, spec=True)
+                    gf.closure = fr.closure
+                    gf.bound = fr.bound
+                    env[g] = self.ev1(self.parse_spec(c.ghost[g][1]), st, gf)
+                elif g in st.env:
                     env[g] = st.env[g]
                 elif g in fr.closure:
                     env[g] = fr.closure[g]
@@ -309,7 +315,7 @@ class CallMixin:
                 else:
                     raise CheckerError('ghost argument %s of %s not available at call site in %s' % (g, c.qual, fr.qual))
         ctypes = dict(c.types)
-        ctypes.update(c.ghost)
+        ctypes.update({g: (k[0] if isinstance(k, tuple) else k) for g, k in c.ghost.items()})
         env = self.contract_env(st, c, env, ctypes)
         pre_heap = dict(st.heap)
         sf = self.spec_frame(fv.module, c.qual, fv.cls, env, old=(pre_heap, env))
@@ -318,6 +324,7 @@ class CallMixin:
         try:
             if not fr.spec:
                 for j, text in enumerate(c.requires):
+                    text = clause(text)[0]
                     v = self.ev1(self.parse_spec(text), st, sf)
                     self.oblige(st, '%s#call[%s].requires[%d]' % (fr.prefix, short, j), truthy(v), {'text': text})
                     st.assume(asz(truthy(v)))
@@ -329,6 +336,7 @@ class CallMixin:
                 sf2 = self.spec_frame(fv.module, c.qual, fv.cls, env, old=(pre_heap, env))
                 ens = spec if isinstance(spec, (list, tuple)) else [spec]
                 for text in ens:
+                    text = clause(text)[0]
                     s2.assume(asz(truthy(self.ev1(self.parse_spec(text), s2, sf2))))
                 s2.env = dict(saved)
                 if self.feasible(s2):
@@ -342,6 +350,7 @@ class CallMixin:
                 self.tf_assume(st, self.type_facts(res, rk, st))
             sf3 = self.spec_frame(fv.module, c.qual, fv.cls, env, old=(pre_heap, env), result=res)
             for text in c.ensures:
+                text = clause(text)[0]
                 st.assume(asz(truthy(self.ev1(self.parse_spec(text), st, sf3))))
         finally:
             st.env = saved
@@ -500,11 +509,9 @@ class CallMixin:
         fr.bound = dict(fr.bound)
         facts = []
         for p, k in zip(lam.args.args, kinds):
-            if k.nleaves != 1:
-                raise CheckerError('quantified variable must be single-leaf')
-            bv = z3.Const(fresh_name('q_' + p.arg), k.sorts()[0])
-            bvs.append(bv)
-            v = SVal(k, [bv])
+            leaves = [z3.Const(fresh_name('q_' + p.arg), srt) for srt in k.sorts()]
+            bvs += leaves
+            v = SVal(k, leaves)
             fr.bound[p.arg] = v
             if not isinstance(k, KRef):
                 facts += self.type_facts(v, k, st)
